@@ -14,8 +14,11 @@ Definition popn (n : Z) (l : list Z) : list Z * list Z := (firstn (Z.to_nat n) l
 Definition range (n : Z) : list Z := map Z.of_nat (seq 0 (Z.to_nat n)).
 Definition table_fn (t : list Z) (v : Z) : Z := nth (Z.to_nat v) t 0.
 
+(* Exec.check decides a condition that simplifies to a literal before asking the solver: a condition that is
+   constant over the whole valuation space is answered sat / unsat even by the always-`unknown` solver *)
 Definition oracle (nv : Z) (pathmask : list Z) (unk : Z) (c : cnd Z) : Z :=
-  if unk =? 1 then 2
+  if unk =? 1 then
+    (if forallb c (range nv) then 1 else if forallb (fun v => negb (c v)) (range nv) then 0 else 2)
   else if existsb (fun v => negb (table_fn pathmask v =? 0) && c v) (range nv) then 1 else 0.
 
 Definition bits (nv : Z) (c : cnd Z) : list Z := map (fun v => if c v then 1 else 0) (range nv).
